@@ -149,12 +149,22 @@ const maxOldStep = 0xffff
 // ver ("0.5.0" .. "0.5.9").  ok=false if the old writers could not encode the keys.
 func writeV3(keys []string, vals [][]byte, ver string) (out []byte, ok bool) {
 	nodes := buildOld(keys)
+	// "<writer version>" or "<writer version>@<header version>": the property lists every
+	// children encoding under every one of the three header versions, also the combinations
+	// no release wrote (0.5.3 content under a 0.5.8 header, ...)
+	hover := ""
+	if i := strings.IndexByte(ver, '@'); i >= 0 {
+		ver, hover = ver[:i], ver[i+1:]
+	}
 	var v [3]int
 	fmt.Sscanf(ver, "%d.%d.%d", &v[0], &v[1], &v[2])
 	patch := v[2]
 	hver := "1.0.0"
 	if patch >= 8 {
 		hver = ver
+	}
+	if hover != "" {
+		hver = hover
 	}
 	ext := patch >= 9
 	total := len(nodes)
